@@ -41,7 +41,22 @@ def run_one(prop, name, patch, tier="quick", extra_env=None):
                         ignore=shutil.ignore_patterns(".git", "__pycache__", "*.pyc", ".pytest_cache"))
         r = subprocess.run(["patch", "-p1", "-s", "-d", copy, "-i", patch], capture_output=True, text=True)
         if r.returncode != 0:
-            return "PATCH-FAILED", r.stdout + r.stderr, time.time() - t0
+            # the seeded change was written against an older commit of /repo (later fix: commits touch
+            # the same lines): rebuild the copy from that commit and apply it there
+            meta = os.path.join(os.path.dirname(patch), "meta.json")
+            base = None
+            if os.path.exists(meta):
+                base = json.load(open(meta)).get("verified_by_me", {}).get("baseline")
+            if not base:
+                return "PATCH-FAILED", r.stdout + r.stderr, time.time() - t0
+            shutil.rmtree(copy)
+            os.makedirs(copy)
+            ar = subprocess.run("git -C %s archive %s | tar -x -C %s" % (REPO, base, copy), shell=True,
+                                capture_output=True, text=True)
+            r = subprocess.run(["patch", "-p1", "-s", "-d", copy, "-i", patch], capture_output=True, text=True)
+            if ar.returncode != 0 or r.returncode != 0:
+                return "PATCH-FAILED", ar.stderr + r.stdout + r.stderr, time.time() - t0
+            name = name + "@" + base
         env = dict(os.environ, VERIF_REPO_DIR=copy, VERIF_EVIDENCE_DIR=os.path.join(tmp, "ev"),
                    VERIF_REPLAY_DIR=os.path.join(tmp, "rp"), VERIF_MIN_S="10")
         env.update(extra_env or {})
